@@ -1,9 +1,10 @@
 (* Glue between proximal_operator's keyword arguments and the operators of Model/Prox.v.
-   The decision logic itself (validate_constraints: truthiness, dict / list / scalar values, Python int keys incl. negative ones,
-   the ValueError branches) is NOT modelled here: the authoritative model is C11's Model/Constraints.v (zvalidate, theorem
-   C11_validate_order); this file only says how the keywords a caller wrote are presented to it.  Definitions only. *)
-From Coq Require Import List QArith Bool.
-From TLV Require Import Base.Tensor.
+   The decision logic of validate_constraints (truthiness, dict / list / scalar values, Python int keys incl. negative ones,
+   the ValueError branches) is NOT re-modelled here: the authoritative model is C11's Model/Constraints.v (zvalidate, theorem
+   C11_validate_order); this file says how the keywords a caller wrote are presented to it, and models proximal_operator's own
+   body (early exit, twelve-way dispatch, parameter passing).  Definitions only. *)
+From Coq Require Import List ZArith QArith Qround Bool.
+From TLV Require Import Base.Ops Base.Tensor Model.Prox.
 From TLV Require Model.Constraints.
 Import ListNotations.
 
@@ -17,3 +18,73 @@ Definition spec_of (specs : kwargs) (k : Constraints.kind) : @Constraints.zspec 
 (* validate_constraints with the written keywords, n_const = n, order = order: Ok (Some (kind, parameter)) | Ok None | Err (raises) *)
 Definition validate_kwargs (n order : nat) (specs : kwargs) : res (option (Constraints.kind * Q)) :=
   Constraints.zvalidate qtruthy n (Constraints.zkeywords (spec_of specs)) order.
+
+(* ------------------------------------------------------------------------------------------------------------------
+   proximal_operator itself: the early exit n_const is None, the call of validate_constraints, the twelve-way dispatch on the
+   selected constraint name, and how the selected parameter reaches the operator.  Written once over a record of field operations
+   (executed at Qops by the correspondence, proved about at Rops); a tensor is a list of rows.  The keyword values stay rationals
+   (Python floats / ints / True are rationals); [conv] embeds the selected parameter into the carrier (identity at Q, Q2R at R). *)
+
+(* hard_thresholding(tensor, p) keeps the positions whose rank r (a natural number) satisfies r < p: that is ceil(p) positions for
+   p > 0 and none for p <= 0 (p is an int in sensible calls, but any float / True is accepted by the code) *)
+Definition rank_bound (p : Q) : nat := Z.to_nat (Qceiling p).
+
+Section Run.
+Context {F : Type} (Op : fops F) (conv : Q -> F).
+Inductive pop :=
+| PNonneg | PSoft (t : F) | PL2 (t s : F) | PL2sq (t : F) | PUnimodal | PNormalize | PSimplex (p : F)
+| PNormSparsity (k : nat) (s : F) | PSoftSparsity (p : F) | PSmooth (t : F) | PMonotone (dec : bool) | PHard (k : nat)
+| PIdentity.
+
+(* the body of each `elif constraint == ...: return ...` branch; [aux] is the value of tl.norm the branch will ask for (norm tape) *)
+Definition pop_of (k : Constraints.kind) (p : Q) (aux : F) : pop :=
+  match k with
+  | Constraints.KNonNeg => PNonneg                                   (* tl.clip(tensor, a_min=0) *)
+  | Constraints.KL1 => PSoft (conv p)                                (* soft_thresholding(tensor, parameter) *)
+  | Constraints.KL2 => PL2 (conv p) aux                              (* l2_prox(tensor, parameter) *)
+  | Constraints.KL2sq => PL2sq (conv p)                              (* l2_square_prox(tensor, parameter) *)
+  | Constraints.KUnimodal => PUnimodal                               (* unimodality_prox(tensor) *)
+  | Constraints.KNormalize => PNormalize                             (* tensor / tl.max(tl.abs(tensor)) *)
+  | Constraints.KSimplex => PSimplex (conv p)                        (* simplex_prox(tensor, parameter) *)
+  | Constraints.KNormSparsity => PNormSparsity (rank_bound p) aux    (* normalized_sparsity_prox(tensor, parameter) *)
+  | Constraints.KSoftSparsity => PSoftSparsity (conv p)              (* soft_sparsity_prox(tensor, parameter) *)
+  | Constraints.KSmooth => PSmooth (conv p)                          (* smoothness_prox(tensor, parameter) *)
+  | Constraints.KMonotone => PMonotone false                         (* monotonicity_prox(tensor): decreasing defaults to False *)
+  | Constraints.KHardSparsity => PHard (rank_bound p)                (* hard_thresholding(tensor, parameter) *)
+  end.
+
+(* which operators work column by column and which on the flattened tensor *)
+Definition prun (o : pop) (rows : list (list F)) : list (list F) :=
+  match o with
+  | PNonneg => flatwise (non_negative Op) rows
+  | PSoft t => flatwise (soft_thresholding Op t) rows
+  | PL2 t s => flatwise (l2_prox_with Op s t) rows
+  | PL2sq t => flatwise (l2_square_prox Op t) rows
+  | PUnimodal => cols_of Op (unimodality_cols Op (cols_of Op rows))
+  | PNormalize => flatwise (normalize Op) rows
+  | PSimplex p => colwise Op (simplex_prox Op p) rows
+  | PNormSparsity k s => flatwise (normalized_sparsity_with Op s k) rows
+  | PSoftSparsity p => colwise Op (soft_sparsity_prox Op p) rows
+  | PSmooth t => colwise Op (smoothness_solve Op t) rows
+  | PMonotone d => colwise Op (monotonicity_prox Op d) rows
+  | PHard k => flatwise (hard_thresholding Op k) rows
+  | PIdentity => rows
+  end.
+
+(* `if n_const is None: return tensor`; `constraint, parameter = validate_constraints(...)` (may raise); `if constraint is None:
+   return tensor`; else the branch of the selected name *)
+Definition selected_pop (n_const : option nat) (order : nat) (specs : kwargs) (aux : F) : res pop :=
+  match n_const with
+  | None => Ok PIdentity
+  | Some n =>
+      match validate_kwargs n order specs with
+      | Ok (Some (k, p)) => Ok (pop_of k p aux)
+      | Ok None => Ok PIdentity
+      | Err => Err
+      end
+  end.
+Definition proximal_operator (n_const : option nat) (order : nat) (specs : kwargs) (aux : F) (rows : list (list F)) : res (list (list F)) :=
+  match selected_pop n_const order specs aux with Ok o => Ok (prun o rows) | Err => Err end.
+End Run.
+Arguments PNonneg {F}. Arguments PUnimodal {F}. Arguments PNormalize {F}. Arguments PIdentity {F}.
+Arguments PMonotone {F}. Arguments PHard {F}.
